@@ -12,6 +12,8 @@
          -> ok <branch> | differs <field>
     peaceman.unit <METRIC|FIELD|LAB|PVT-M> <L|KH|CF> <deck value> <SI value of the real code>
          -> ok | differs
+    peaceman.cskin <CF> <Kh> <Ke> <rw> <r0> <re> <connLen> <skin> <denom> <new skin> <CF'> <skin'> <denom'>
+         -> ok | differs <field>        (Connection::setSkinFactor on a copy of a real connection)
     peaceman.eval <inputs as for ctf>        (debugging aid: the model's own bits)
     conns.seq     see `handleSeq`
 -/
@@ -159,6 +161,14 @@ def handle (op : String) (args : List String) : String :=
     | some inp, some cell =>
       let m := ctfOf floatFns inp cell
       " ".intercalate ([m.CF, m.Kh, m.Ke, m.rw, m.r0, m.re, m.connLen, m.skin, m.denom].map showF)
+    | _, _ => "bad-op"
+  | "peaceman.cskin" =>
+    -- <9 CTF fields before> <new skin> <CF after> <skin after> <denom after>
+    match parseCTF (args.take 9), ((args.drop 9).map parseF) with
+    | some c, [some s, some cf, some sk, some dn] =>
+      let m := setSkinFactor c s
+      if !closeF m.CF cf then "differs CF" else if !closeF m.skin sk then "differs skin"
+      else if !closeF m.denom dn then "differs denom" else "ok"
     | _, _ => "bad-op"
   | "peaceman.unit" =>
     match args with
